@@ -31,7 +31,10 @@ def prepare(case, fault=None, record_sites=True, keep_args=True, policy="fresh")
     rng = rng_for("prep", case["fam"], *case["gseed"])
     cfgd = dict(case["cfg"])
     p.fmt = case.get("fmt") or str(rng.choice(["coo", "csr", "csc"]))
-    p.dup = bool(case.get("dup", False))
+    # non-canonical sparse storage (entries split into two stored parts, explicit zeros) in a share of all cases
+    p.dup = case["dup"] if "dup" in case else int(rng.choice([0, 0, 0, 1, 2]))
+    if p.fmt not in ("coo", "csr", "csc"):
+        p.dup = 0
     ymode = case.get("y0", "none")
     if ymode == "rand":
         spec.y0 = rng.normal(size=spec.m) * float(case.get("y0_scale", 1.0))
